@@ -362,14 +362,16 @@ static void lht_build(struct aws_linked_hash_table *T, size_t max_n, int flags) 
     for (size_t i = 0; i < LHT_K; i++)
         for (size_t j = i + 1; j < LHT_K; j++)
             __CPROVER_assume(!(j < n) || !lht_keq(g_a.key[i], g_a.key[j]));
-    if (flags & LHT_PERMUTE_CELLS) {
+    if (flags & LHT_PERMUTE_CELLS) { /* the first max_n cells, among the first max_n entries */
         for (size_t i = 0; i < LHT_S; i++) {
-            size_t s = nondet_size_t();
-            __CPROVER_assume(s < LHT_S);
-            g_a.slot[i] = s;
+            if (i < max_n) {
+                size_t s = nondet_size_t();
+                __CPROVER_assume(s < max_n);
+                g_a.slot[i] = s;
+            }
         }
         for (size_t i = 0; i < LHT_S; i++)
-            for (size_t j = i + 1; j < LHT_S; j++) __CPROVER_assume(g_a.slot[i] != g_a.slot[j]);
+            for (size_t j = i + 1; j < LHT_S; j++) __CPROVER_assume(!(j < max_n) || g_a.slot[i] != g_a.slot[j]);
     }
     g_a.hidden = nondet_size_t();
     __CPROVER_assume(g_a.hidden >= gaps && (gaps > 0 || g_a.hidden == 0) && g_a.hidden <= SIZE_MAX - 4 * LHT_S);
